@@ -6,6 +6,7 @@ import (
 	"os"
 	"path/filepath"
 	"strconv"
+	"strings"
 
 	"goagvc/vc"
 )
@@ -41,6 +42,20 @@ func checkCmd(args []string) int {
 		return 2
 	}
 	corpusDir := filepath.Join(cr.Scratch, "corpus")
+	relevant := map[string][]string{
+		"C02": {"Response", "write"}, "C03": {"router.go"}, "C11": {"router.go"}, "C13": {"router.go", "spec_file.go"}, "C16": {"router.go"}, "C17": {"router.go"},
+		"C04": {"Params", "handler.go"}, "C05": {"Params", "handler.go"}, "C14": {".go"}, "C20": {".go"},
+	}
+	if pats, ok := relevant[*prop]; ok {
+		cr.LoadFailureRelevant = func(msg string) bool {
+			for _, p := range pats {
+				if strings.Contains(msg, p) {
+					return true
+				}
+			}
+			return false
+		}
+	}
 	switch *prop {
 	case "C03":
 		entries := vc.RouteCorpus(corpusDir, *tier, seed)
